@@ -293,8 +293,10 @@ class World(BaseWorld):
             kw["log_trick"] = True
         if span_hi - span_lo > 64 or mag > 200:
             return "skipped"
-        if self.n_vars_total() > 11:
+        if self.n_vars_total() > (11 if not self.cfg.get("deep") else 60):
             return "skipped-large"
+        if self.cfg.get("deep"):
+            self.probe("deep_history_constraint")
         where = "%s.add_constraint_%s_zero(%r, %r)" % (self.T.__name__, rel, P, kw)
         H_before = self.stored()
         anc_before = self.H.num_ancillas
@@ -749,6 +751,14 @@ def gen_cfg(rng, prop, tier):
         "n_ops": rng.choice([2, 4, 7, 12]),
         "half_bounds": tier == "thorough",
     }
+    if prop in ("C02", "C03") and rng.random() < 0.15:
+        # "deep" histories: many ancilla-bearing constraints on one model (dozens of ancillas).  Truth-table clauses are skipped
+        # beyond their size caps; ancilla freshness, footprint, counter coverage and conservation are still checked symbolically.
+        cfg["deep"] = True
+        cfg["max_cons"] = rng.choice([6, 9, 12])
+        cfg["n_ops"] = rng.choice([10, 16, 24])
+        cfg["p_skewed"] = 0.6
+        cfg["w_obj"] = 0
     if prop == "C08":
         cfg["max_cons"] = rng.choice([1, 2, 3])
         cfg["w_logic"] = rng.choice([0, 2, 4])
